@@ -154,10 +154,11 @@ block brace), any non-CR white space /
 indentation / blank lines, arbitrarily nested `… {⏎ … ⏎}` blocks, one-line double-quoted strings
 (escapes `\"`, `\\`, `\n` … allowed, followed by white space), simple backquoted strings (one line, any
 characters incl. backslash, followed by white space), comments (own line, after a
-word, or after `{` on the same line — that one is moved to the next line; any text without backslash / trailing blank).  NOT covered by these two
+word, or after `{` / `}` on the same line — after `{` it is moved to the next line, after `}` the
+indentation is written in between, at nesting 0 two newlines; any text without backslash / trailing blank).  NOT covered by these two
 theorems (only by the correspondence stream and the impl-side oracle): multi-line
 quoted strings, heredoc tokens, line continuations, `#`/`"`/`<` inside words, CR, comments
-directly after `}` on the same line or directly before `{`.
+directly before `{`.
 -/
 
 /-- on `W`, `Format` is the canonical re-rendering of the chunks (exact output) -/
@@ -204,6 +205,10 @@ example : inW (runes "a { # c\nb\n}") = true ∧ format (runes "a { # c\nb\n}") 
 -- escapes inside double-quoted strings
 set_option maxRecDepth 100000 in
 example : inW (runes "respond \"{\\\"k\\\": \\\"v\\\"} \\\\ \\<<x\" 200") = true := by decide
+-- … and after `}` the indentation is written between brace and comment
+set_option maxRecDepth 100000 in
+example : inW (runes "a {\nb {\n} # c\n} # d") = true ∧
+    format (runes "a {\nb {\n} # c\n} # d") = runes "a {\n\tb {\n\t}\t# c\n}\n\n# d\n" := by decide
 -- backquoted strings: literal, a backslash is an ordinary character in them
 set_option maxRecDepth 100000 in
 example : inW (runes "root  `C:\\sites\\a b`  {\n respond `say \"hi\" # {x}` 200\n}\n``") = true := by
